@@ -25,23 +25,31 @@ PROP_CLASSES = {"C05": {"order", "ownership"}, "C06": {"wait"}, "C07": {"fault",
 NAMES = ["default", "x", "y", "z"]
 
 
-class R0:
+class _Res:
+    # every third published object is one whose truth value is False (an empty registry, a
+    # closed handle ...): a resource is what was published, whatever bool() says about it
+    def __bool__(self) -> bool:
+        tag = getattr(self, "tag", None)
+        return not (isinstance(tag, tuple) and isinstance(tag[-1], int) and tag[-1] % 3 == 0)
+
+
+class R0(_Res):
     pass
 
 
-class R1:
+class R1(_Res):
     pass
 
 
-class R2:
+class R2(_Res):
     pass
 
 
-class R3:
+class R3(_Res):
     pass
 
 
-class R4:
+class R4(_Res):
     pass
 
 
@@ -64,7 +72,15 @@ class Inj2(RuntimeError):
     pass
 
 
-INJ = [Inj0, Inj1, Inj2]
+class Inj3(TimeoutError):  # (a component's own I/O timing out is a failure of that component, not the startup timeout)
+    pass
+
+
+class Inj4(OSError):
+    pass
+
+
+INJ = [Inj0, Inj1, Inj2, Inj3, Inj4]
 
 
 # =====================================================================================
@@ -234,7 +250,7 @@ def cases(draw: Any, prop: str, tier: str) -> dict:
             i = d.int(0, n - 1)
             opts = ["creating"] + (["preparing"] if nodes[i]["prepare"] is not None else []) + (["starting"] if nodes[i]["start"] is not None else [])
             phase = d.pick(opts)
-            f: dict[str, Any] = {"node": i, "phase": phase, "exc": d.int(0, 2)}
+            f: dict[str, Any] = {"node": i, "phase": phase, "exc": d.int(0, 4)}
             if phase != "creating":
                 script = nodes[i]["prepare" if phase == "preparing" else "start"]
                 pos = d.int(0, len(script))
